@@ -1608,6 +1608,23 @@ async fn stream_op(log: Arc<Log>, who: String, streams: Shared<Streams>, step: V
             let h = streams.lock().await.send.remove(&k);
             match h {
                 Some(mut sx) => {
+                    // `poll_once`: the finish future is polled once and dropped if it is not ready yet
+                    // (an application that gives up waiting); reported as its own event, not as a result
+                    if step.get("poll_once").and_then(|v| v.as_bool()).unwrap_or(false) {
+                        if let SendH::App(x) = &mut sx {
+                            let ready = {
+                                let mut fut = std::pin::pin!(x.finish());
+                                tokio::select! { biased;
+                                    r = &mut fut => Some(r.is_ok()),
+                                    _ = std::future::ready(()) => None,
+                                }
+                            };
+                            log.emit(&who, "finish_polled_once", fields! {"tag" => tag.clone(),
+                                "ready" => ready.is_some(), "ok" => ready.unwrap_or(false)});
+                        }
+                        streams.lock().await.send.insert(k, sx);
+                        return;
+                    }
                     let r = match &mut sx {
                         SendH::App(x) => match timeout(dl, x.finish()).await {
                             Ok(Ok(())) => json!({"k": "ok"}),
